@@ -742,9 +742,8 @@ sh!(s_apply_reads_hit1_watermark, s_apply_reads(&sc(2, Some(3), false, W1, false
 sh!(s_apply_reads_miss, s_apply_reads(&sc(2, Some(3), false, W1, false, true, false, 1), 2, false));
 
 // ================================================================================================
-// Light maintenance-step harnesses (the full-state comparisons of s_handle_upsert / s_evict_lru /
-// s_evict_expired above exceed 40 GB / 40 min under CBMC with the sync cache's Arc/lock-heavy state
-// and are NOT instantiated; these check the same decisions with targeted assertions).
+// Light maintenance-step harnesses: targeted assertions (symbolic weights) next to the full-state
+// comparisons s_handle_upsert / s_evict_lru / s_evict_expired.
 // ================================================================================================
 fn ao_ptr(e: &Ent) -> Option<NonNull<DeqNode<KeyHashDate<u8>>>> { e.access_order_q_node().map(|t| t.decompose().0) }
 
@@ -798,8 +797,11 @@ fn l_upsert_admit_fits(cfg: &SCfg) {
     let inner = &*st.b.inner;
     let n = cfg.n;
     let key = n as u8;
-    let (new_w, info_w): (u32, u32) = (kani::any(), kani::any());
-    if let Some(cap) = g.cap { kani::assume(g.ws + new_w as u64 <= cap); }
+    // bounded cache: the op's weight is concrete (7) so that "fits" is decided during symbolic execution;
+    // unbounded cache: fully symbolic. The weight in the shared EntryInfo is symbolic in both.
+    let new_w: u32 = if g.cap.is_some() { 7 } else { kani::any() };
+    let info_w: u32 = kani::any();
+    if let Some(cap) = g.cap { assert!(g.ws + new_w as u64 <= cap); }
     let k = Arc::new(key);
     let info = TrioArc::new(EntryInfo::new(inst(g.now), info_w));
     crate::common::concurrent::entry_info::verif_entry_info::register_w(&info, n, false, true, info_w);
@@ -929,8 +931,25 @@ fn l_remove(cfg: &SCfg, j: usize) {
     std::mem::forget(st);
 }
 
-// NOT instantiated (no verdict within 40 GB / 20 min even at n = 1, see DESIGN.md 12): l_upsert_admit_fits, l_upsert_admission,
-// l_evict_lru_exact, l_purge_one -- the admission / eviction / purge steps of the concurrent cache are outside this technique's reach here.
+// NOT instantiated: the TinyLFU admission path of handle_upsert (l_upsert_admission_*, s_upsert_new_full_unit / _toobig /
+// _two_victims), evict_lru_entries with two victims and evict_expired with removal at n = 2 exhaust 40 GB
+// (SmallVec spill paths + Arc drop glue on merged heaps); see DESIGN.md 12.
+sh!(l_upsert_admit_fits_unbounded, l_upsert_admit_fits(&sc(1, None, true, WT_A, true, false, false, 1)));
+sh!(l_upsert_admit_fits_cap, l_upsert_admit_fits(&sc(1, Some(1000), true, WT_A, false, false, false, 1)));
+sh!(l_evict_lru_exact_n2, l_evict_lru_exact(&sc(2, Some(5), true, WT_A, false, false, false, 1)));
+sh!(l_purge_one_ttl_deadline, l_purge_one(&sc(1, Some(9), true, WT_A, true, false, false, 2)));
+sh!(l_purge_one_tti_live, l_purge_one(&sc(1, Some(9), true, WT_A, false, true, false, 1)));
+sh!(l_purge_one_watermark, l_purge_one(&sc(1, Some(9), true, WT_A, false, false, true, 4)));
+// full-state comparisons of the maintenance steps
+sh!(s_upsert_update0, s_handle_upsert(&sc(2, Some(20), true, WT_A, true, true, false, 1), 0, 1, false));
+sh!(s_upsert_update1_stale, s_handle_upsert(&sc(2, Some(20), true, WT_A, true, false, false, 1), 1, 1, true));
+sh!(s_upsert_new_fits, s_handle_upsert(&sc(1, Some(20), true, WT_A, true, true, false, 1), 1, 0, false));
+sh!(s_upsert_new_fits_stale, s_handle_upsert(&sc(1, Some(20), true, WT_A, false, false, false, 1), 1, 0, true));
+sh!(s_remove0, s_handle_remove(&sc(2, Some(9), true, WT_A, true, true, false, 1), 0));
+sh!(s_remove_absent, s_handle_remove(&sc(1, Some(9), true, WT_A, false, false, false, 1), 1));
+sh!(s_evict_lru_exact, s_evict_lru(&sc(2, Some(8), true, WT_A, true, false, false, 1), 3));
+sh!(s_evict_lru_within, s_evict_lru(&sc(2, Some(8), true, WT_A, false, false, false, 1), 0));
+sh!(s_purge_nothing, s_evict_expired(&sc(2, Some(9), true, WT_A, true, true, true, 1)));
 sh!(l_upsert_update_n1, l_upsert_update(&sc(1, Some(20), true, WT_A, false, true, false, 1), 0));
 sh!(l_upsert_update_n2_lru_ttl, l_upsert_update(&sc(2, Some(20), true, WT_A, true, true, false, 1), 0));
 sh!(l_remove_n1, l_remove(&sc(1, Some(9), true, WT_A, true, false, false, 1), 0));
